@@ -49,6 +49,12 @@ func runC05(env *Env, tier string) {
 		I.cfg.ChunkSize = 1 + ch.Choose("chunksize", 4)
 		A.cfg.ChunkSize = 1 + ch.Choose("chunksize", 4)
 	}
+	if begin >= "FIX.4.4" && ch.Chance("nextexpected", 1, 5) {
+		// both sides announce the number they expect next in their Logon (tag 789)
+		I.cfg.Extra = map[string]string{"EnableNextExpectedMsgSeqNum": "Y"}
+		A.cfg.Extra = map[string]string{"EnableNextExpectedMsgSeqNum": "Y"}
+		env.Stat("probe_next_expected_msg_seq_num")
+	}
 	cl := NewConnLog(env, w)
 	cl.OwnerOf = func(ep *simnet.Endpoint) string {
 		if ep.Side() == 0 {
